@@ -224,8 +224,16 @@ Print Assumptions C13_custom_base_log_domain_fails.
 
 (* every representable positive argument gets an answer: no range assertion fires, no loop bound of the model is hit
    (integers only, axiom-free) *)
-Theorem C13_log2_total : forall x, 0 < x -> bitlen x <= 1144 -> exists r, log_base2 x = Ok r.
-Proof. exact log_base2_total. Qed.
+Theorem C13_log2_total : forall x, 0 < x -> bitlen x <= 1144 ->
+  (exists r, log_base2 x = Ok r) /\ (exists r, ln_bigdec x = Ok r) /\ (exists r, tick_log x = Ok r) /\
+  (* CustomBaseLog returns too, unless the computed log2(base) is exactly 0 (base within 2^-119 of 1): then the division
+     panics - loudly *)
+  (forall base, 0 < base -> base <> P36 -> bitlen base <= 1144 ->
+     exists r, custom_base_log x base = Ok r \/ (custom_base_log x base = Err EDivZero /\ log_base2 base = Ok 0)).
+Proof.
+  intros x H1 H2. split; [exact (log_base2_total x H1 H2)|split; [exact (ln_total x H1 H2)|split; [exact (tick_log_total x H1 H2)|]]].
+  intros base H3 H4 H5. exact (custom_base_log_total x base H1 H2 H3 H4 H5).
+Qed.
 Print Assumptions C13_log2_total.
 
 Example C13_log2_nonvacuous :
